@@ -128,6 +128,181 @@ def _c01_extra(recs):
 
 mutators["decode"] = _mutate_hex_op
 
+
+# ------------------------------------------------------------------------ C11 / C10
+
+_LIFE_STEPS = {"exp": 1, "soon": 1, "due": 1, "half": 1, "refresh": 1, "upd": 1, "nomore": 0, "reset": 2,
+               "updttl": 1, "remttl": 1, "sooner": 1, "setexp": 1, "view": 0}
+_CACHE_CMDS = ("add", "evicta", "evicts", "known", "refptr", "refst", "refhosts", "refres", "rmtype", "verify", "dump")
+
+
+def _life_steps(op):
+    """(head tokens, [step token lists]) of a rec-life op"""
+    toks = op.split(" ")
+    steps, i = [], 4
+    while i < len(toks):
+        n = _LIFE_STEPS.get(toks[i])
+        if n is None:
+            return toks[:3], None
+        steps.append(toks[i:i + 1 + n])
+        i += 1 + n
+    return toks[:3], steps
+
+
+def _cache_cmds(op):
+    """the commands of a cache-seq op as token lists (command words are not hex, not numbers)"""
+    toks = op.split(" ")
+    cmds = []
+    for t in toks[2:]:
+        if t in _CACHE_CMDS:
+            cmds.append([t])
+        elif cmds:
+            cmds[-1].append(t)
+    return cmds
+
+
+def _shrink_life(op):
+    head, steps = _life_steps(op)
+    if not steps:
+        return
+    for k in range(len(steps)):
+        rest = steps[:k] + steps[k + 1:]
+        yield " ".join(head + [str(len(rest))] + [t for st in rest for t in st])
+
+
+def _shrink_cache(op):
+    cmds = _cache_cmds(op)
+    for k in range(len(cmds)):
+        rest = cmds[:k] + cmds[k + 1:]
+        yield " ".join(["cache-seq", str(len(rest))] + [t for c in rest for t in c])
+
+
+shrinkers["rec-life"] = _shrink_life
+shrinkers["cache-seq"] = _shrink_cache
+
+
+def _mutate_numbers(op, seed):
+    """neighbours of the numeric fields (times, TTLs) of an op"""
+    rnd = random.Random(seed)
+    toks = op.split(" ")
+    idx = [i for i, t in enumerate(toks) if i > 0 and re.fullmatch(r"[0-9]+", t) and (len(t) % 2 == 1 or int(t) > 99)]
+    if not idx:
+        idx = [i for i, t in enumerate(toks) if i > 0 and re.fullmatch(r"[0-9]+", t)]
+    if not idx:
+        return
+    while True:
+        i = rnd.choice(idx)
+        v = int(toks[i])
+        v2 = max(0, rnd.choice([v - 1, v + 1, v - 1000, v + 1000, v // 2, v * 2, v + 500]))
+        yield " ".join(toks[:i] + [str(v2)] + toks[i + 1:])
+
+
+for _k in ("rec-life", "suppress", "cache-seq"):
+    mutators[_k] = _mutate_numbers
+mutators["suppress-msg"] = _mutate_hex_op
+
+
+def _life_crossed_mark(r):
+    """a rec-life case in which at least one re-query was triggered"""
+    head, steps = _life_steps(r["op"])
+    if not steps:
+        return False
+    ans = r["impl"].split(" ")
+    i = 0
+    for st in steps:
+        k = st[0]
+        if i >= len(ans):
+            return False
+        if k == "refresh":
+            if ans[i] == "1":
+                return True
+            i += 2
+        elif k == "upd":
+            if ans[i] == "some":
+                return True
+            i += 1
+        elif k in ("updttl", "remttl"):
+            i += 1 if ans[i] == "panic" else 2
+        elif k in ("reset", "view"):
+            i += 4
+        else:
+            i += 1
+    return False
+
+
+def _cache_chunks(r):
+    cmds = _cache_cmds(r["op"])
+    chunks = [c.split(" ") for c in r["impl"].split(" ; ")]
+    return list(zip(cmds, chunks))
+
+
+def _c11_nontrivial(r):
+    k = r["op"].split(" ")[0]
+    if k == "rec-life":
+        return _life_crossed_mark(r)
+    if k == "cache-seq":
+        for cmd, out in _cache_chunks(r):
+            if cmd[0] == "add" and out[0] == "some":
+                # a cache-flush hit (a timer was pushed) or a refreshed entry
+                ntim = _add_timers(out)
+                if ntim > 0 or out[1] == "0":
+                    return True
+            if cmd[0] in ("evicta", "evicts", "refptr", "refres") and out[0] != "0":
+                return True
+            if cmd[0] in ("refst", "refhosts") and out[0] != "0":
+                return True
+    return False
+
+
+def _add_timers(out):
+    """number of timers at the end of an `add` answer: `... k t1..tk`"""
+    for k in range(0, 64):
+        if len(out) > k + 1 and out[-1 - k] == str(k) and all(re.fullmatch(r"[0-9]+", t) for t in out[len(out) - k:]):
+            return k
+    return 0
+
+
+def _c10_nontrivial(r):
+    k = r["op"].split(" ")[0]
+    t = r["impl"].split(" ")
+    if k == "suppress":
+        return len(t) == 3 and t[1] == "1"          # same RDATA: TTL, class, bit, name decide
+    if k == "suppress-msg":
+        return t[0] == "some"
+    if k == "cache-seq":
+        return any(cmd[0] == "known" and out[0] not in ("0", "badtype") for cmd, out in _cache_chunks(r))
+    return False
+
+
+def _c11_extra(recs):
+    steps = marks = flush = evict = 0
+    for r in recs:
+        k = r["op"].split(" ")[0]
+        if k == "rec-life":
+            _, st = _life_steps(r["op"])
+            steps += len(st or [])
+            marks += r["impl"].split(" ").count("1") if st else 0
+        elif k == "cache-seq":
+            for cmd, out in _cache_chunks(r):
+                if cmd[0] == "add" and out[0] == "some":
+                    flush += _add_timers(out)
+                if cmd[0] in ("evicta", "evicts") and out[0] != "0":
+                    evict += int(out[0]) if out[0].isdigit() else 0
+    return dict(record_life_steps=steps, entries_flushed=flush, entries_evicted_or_reported=evict)
+
+
+def _c10_extra(recs):
+    sup = listed = 0
+    for r in recs:
+        k = r["op"].split(" ")[0]
+        if k == "suppress" and r["impl"].endswith(" 1"):
+            sup += 1
+        elif k == "cache-seq":
+            for cmd, out in _cache_chunks(r):
+                if cmd[0] == "known" and out[0].isdigit():
+                    listed += int(out[0])
+    return dict(answers_suppressed=sup, known_answers_listed=listed)
+
 CONFIG = {
     "C19": dict(
         modules=["Mdns.Props.C19Daemon"],
@@ -178,6 +353,75 @@ CONFIG = {
             "wall-clock time and allocator peaks are measured on the real decoder (watchdog 4 s, peak <= 256*len + 64 KiB), "
             "not proved; the theorems bound the model's loop iterations, entry counts and copied bytes",
             "UTF-8 validation is the model's `validUtf8` (RFC 3629), compared with core::str::from_utf8 on every generated label",
+        ],
+    ),
+    "C10": dict(
+        modules=["Mdns.Props.C10"],
+        model_files="Mdns/Model/Record.lean, Mdns/Model/Cache.lean",
+        nontrivial=_c10_nontrivial,
+        extra_evidence=_c10_extra,
+        rule="ops generated from VERIF_SEED by vharness (c11.rs): `suppress mine other` for every kind of record with the "
+             "responder's TTL in {120, 4500, 0, 1, 2, 3, 7, 255, 121, 4501, 60, 10, u32::MAX-1, u32::MAX} and the listed TTL in "
+             "{0, 1, h-1, h, h+1, full-1, full, full+1, u32::MAX} (h = half), the other record identical / with the cache-flush "
+             "bit clear / with exactly one field changed (owner, owner letter case, class, type, each RDATA field, interface); "
+             "`suppress-msg`: the same against a whole query built by the crate's encoder and decoded by DnsIncoming::new; "
+             "`cache-seq`: caches of shared and unique PTR/SRV/TXT/A/AAAA records asked for known answers at ages 0, 1 ms, "
+             "1 s +-1 ms, half-life -1/0/+1 ms, +1 s, expiry, with update_ttl applied to every listed copy as send_query_vec does. "
+             "Non-trivial = suppress with equal RDATA (TTL, class, bit or owner decide) / a decodable query / a `known` "
+             "command that lists at least one answer. Distinct = distinct op lines.",
+        level_text="Component level. suppress_iff (with the exact meaning of `matches` and of the integer half), its soundness for all "
+                   "records, the querier's known_iff and the written-TTL bounds (no underflow under the half-life guard) are Lean "
+                   "theorems for all records and caches; the model is compared with suppressed_by_answer / suppressed_by / "
+                   "get_known_answers / update_ttl of the working tree on every run and the property's clauses are evaluated on "
+                   "the real answers. The full responder statement is false of the code (witness theorem D18_witness) and is kept "
+                   "as C10_responder_full with suppress_partial proved; the daemon-level clauses (other matching records still "
+                   "answered, query sent on every interface) are not covered at this level.",
+        level_note="Trusted: Lean kernel; axioms propext, Classical.choice, Quot.sound only; hand-written model tied to the code by "
+                   "differential testing of this run's inputs. Partial: suppress_partial needs equal cache-flush bits and "
+                   "(addresses) equal interface - defect D18; handle_query / send_query_vec are not modelled here.",
+        partial=["suppress_partial: hypothesis mine.flush = other.flush and same interface for addresses (defect D18: "
+                 "suppressed_by_answer uses `matches`, which compares the cache-flush bit and the interface)"],
+        assumptions=[
+            "component level: the fold over the answers in handle_query and the per-interface sending of send_query_vec are not part of this check",
+            "times below 2^62 ms (no u64 wrap); TTLs are u32",
+            "lower-casing of host names is modelled on ASCII only; generated names are ASCII",
+            "the exact half-life millisecond (now = created + 500*ttl) and a listed TTL of exactly half are not pinned by the statement (masked in the monitor)",
+        ],
+    ),
+    "C11": dict(
+        modules=["Mdns.Props.C11"],
+        model_files="Mdns/Model/Record.lean, Mdns/Model/Cache.lean",
+        nontrivial=_c11_nontrivial,
+        extra_evidence=_c11_extra,
+        rule="ops generated from VERIF_SEED by vharness (c11.rs): `rec-life` = scripted life of one fresh record for every TTL "
+             "1..600, 0, 2^k, 2^k+-1 (k=1..31), 4500, 120, u32::MAX-1, u32::MAX, created at 0 / 1 / 1000 / 2^62-1 / realistic epoch "
+             "times: refresh_maybe / updated_refresh_time / is_expired / expires_soon / refresh_due / halflife_passed at every mark "
+             "(50/80/85/90/95/100 %) -1/0/+1 ms, jumps over several marks, repeated observations at one instant, past expiry, "
+             "random monotone and non-monotone sequences, reset_ttl by a fresh copy (TTL 0, 1, 2, same, half, random) followed by "
+             "the new schedule, set_expire(_sooner), refresh_no_more, get_remaining_ttl / update_ttl around their underflow; "
+             "`cache-seq` = sequences on one DnsCache: flush scenarios (1-4 older records of one name on several interfaces, "
+             "ages 0..2001 ms around 1000 +-1, remaining life around 1000 +-1, then a cache-flush record, a second one of the same "
+             "burst), eviction at expiry -1/0/+1 ms, refresh look-ups of a browsed service at the marks, random mixes; dumps "
+             "before and after. Non-trivial = at least one refresh mark crossed / a cache-flush hit or refreshed entry / an "
+             "eviction or refresh look-up that returned something. Distinct = distinct op lines.",
+        level_text="Component level. expired_iff, the refresh schedule as an exact characterisation over arbitrary observation sequences "
+                   "(at most four, one per mark, none at or after expiry, first at the first observation in [80 %, expiry), refresh "
+                   "field = next mark), reset_restarts, the cache-flush rule of add_or_update (exactly which entries get now+1000, all "
+                   "others untouched, incoming stored or refreshed) and exact eviction are Lean theorems for all records, times and "
+                   "entry lists; the model is compared with the DnsRecord/DnsCache functions of the working tree on every run and the "
+                   "property's clauses are evaluated on the real answers and dumps. The daemon-level clause (re-queries on the wire "
+                   "while a search is open) is not covered at this level.",
+        level_note="Trusted: Lean kernel; axioms propext, Classical.choice, Quot.sound only; hand-written model tied to the code by "
+                   "differential testing of this run's inputs. u64 arithmetic modelled unbounded below 2^62 ms; update_ttl / "
+                   "get_remaining_ttl underflow modelled as panic (overflow checks on in the harness profile).",
+        assumptions=[
+            "component level: which records the run loop refreshes (refresh_active_services) and the packets it sends are not part of this check",
+            "times below 2^62 ms (get_expiration_time does not wrap); TTLs are u32",
+            "TTL 0 -> 1 s is a property of the decoder (C01.decode_ttl0, restated as ttl0_one_second); DnsRecord::new itself keeps TTL 0",
+            "evict_expired_services attributes an expired SRV to the first type domain in hash order when several type domains point to "
+            "one instance: generated instances belong to one type domain each",
+            "refresh_due_hosts processes host names in hash order: generated SRV host names do not differ only in letter case",
+            "lower-casing modelled on ASCII only; record kind consistent with record type (as DnsIncoming produces them)",
         ],
     ),
     "C16": dict(
